@@ -514,7 +514,30 @@ pub fn one_case(ctx: &Ctx, case: u64, l: &mut Local) {
         }
         "kb-shapes" => {
             // cnf of every shape with KB requested; KB-JWT payloads / headers that are not what is expected
-            let cnf = match r.below(8) {
+            let jwk_with_params = |r: &mut Rng| -> Value {
+                // a plausible JWK decorated with optional registered parameters of every kind
+                let mut j = match r.below(4) {
+                    0 => keys::holder_jwk_json(Alg::ES256, 0),
+                    1 => keys::holder_jwk_json(Alg::EdDSA, 0),
+                    2 => json!({"kty": "RSA", "n": "sXchDaQebHnPiGvyDOAT4saGEUetSyo9MKLOoWFsueri23bOdgWp4Dy1WlUzewbgBHod5pcM9H95GQRV3JDXboIRROSBigeC5yjU1hGzHHyXss8UDprecbAYxknTcQkhslANGRUZmdTOQ5qTRsLAt6BTYuyvVRdhS8exSZEy_c4gs_7svlJJQ4H9_NxsiIoLwAEk7-Q3UXERGYw_75IDrGA84-lA_-Ct4eTlXHBIY2EaV7t7LjJaynVJCpkv4LKjTTAumiGUIuQhrNhZLuF_RJLqHpM2kgWFLU7-VTdL1VbC2tejvcI2BlMkEpk1BzBZI0KQB0GaDWFLN-aEAw3vRw", "e": "AQAB"}),
+                    _ => json!({"kty": "oct", "k": "c2VjcmV0"}),
+                };
+                let algs = ["HS256", "HS384", "HS512", "ES256", "ES384", "RS256", "RS384", "RS512", "PS256", "PS384", "PS512", "EdDSA", "RSA1_5", "RSA-OAEP", "RSA-OAEP-256", "none", "A128KW", "dir", ""];
+                for _ in 0..r.below(4) {
+                    match r.below(7) {
+                        0 => j["alg"] = json!(*r.pick(&algs)),
+                        1 => j["use"] = json!(*r.pick(&["sig", "enc", "x", ""])),
+                        2 => j["key_ops"] = json!([*r.pick(&["sign", "verify", "encrypt", "decrypt", "wrapKey", "unwrapKey", "deriveKey", "deriveBits", "zz"])]),
+                        3 => j["kid"] = rand_json(r, 1),
+                        4 => j["x5c"] = json!(["AAAA"]),
+                        5 => j["x5t"] = json!("AAAA"),
+                        _ => j["alg"] = rand_json(r, 1),
+                    }
+                }
+                j
+            };
+            let cnf = match r.below(10) {
+                8 | 9 => json!({"jwk": jwk_with_params(&mut r)}),
                 0 => rand_json(&mut r, 2),
                 1 => json!({"jwk": rand_json(&mut r, 2)}),
                 2 => json!({"jwk": {"kty": "EC", "crv": "P-256", "x": "AA", "y": "AA"}}),
@@ -641,6 +664,25 @@ pub fn one_case(ctx: &Ctx, case: u64, l: &mut Local) {
             };
             let path_pool = ["$.", "$..", "$.[", "$.a[", "$.a.b", "$", "", "a", "$.é", "$.a[0][1]", "$.o.k[1].z", "$.[0]", "$.a]", "$.a[]", "$.a[-1]", "$.a[99999999999999999999]", "$.😀", "$.\u{0}", "$.deep.k0", "$.deep[0]", "$.iss", "$.exp", "$.a.", "$.a..b", "$.a[0", "$. ", "$.$.", "$.*", "$..*", "$.a[*]", "$.a['b']"];
             let mut own: Vec<String> = vec![];
+            {
+                // systematic: every string of length 1..=5 over the JSONPath metacharacter alphabet
+                // (19 607 strings), one per case, as a Custom path
+                const A: [char; 7] = ['$', '.', '[', ']', '\'', 'a', '0'];
+                let mut idx = (case / 9) % 19_607;
+                let mut len = 1;
+                let mut block = 7u64;
+                while idx >= block {
+                    idx -= block;
+                    len += 1;
+                    block *= 7;
+                }
+                let mut sp = String::new();
+                for _ in 0..len {
+                    sp.push(A[(idx % 7) as usize]);
+                    idx /= 7;
+                }
+                own.push(sp);
+            }
             for _ in 0..r.below(5) {
                 own.push(match r.below(4) {
                     0 => {
@@ -657,7 +699,8 @@ pub fn one_case(ctx: &Ctx, case: u64, l: &mut Local) {
             }
             let paths: Vec<&str> = own.iter().map(|s| s.as_str()).collect();
             use sd_jwt_rs::ClaimsForSelectiveDisclosureStrategy as S;
-            let skind = *r.pick(&STRAT_KINDS);
+            // the enumerated path only matters under Custom: force it for 3 of 4 cases
+            let skind = if r.chance(75) { StratKind::Custom40 } else { *r.pick(&STRAT_KINDS) };
             let strat = match skind {
                 StratKind::NoSD => S::NoSDClaims,
                 StratKind::TopLevel => S::TopLevel,
@@ -714,7 +757,8 @@ pub fn miri_main(args: &[String]) {
         api::begin_case();
         let mut r = Rng::for_case(seed, STREAM + 1000, case);
         let (tok, fmt) = r.pick(&seeds).clone();
-        let class = ["random-bytes", "char-mutated", "part-mutated", "holder-selections"][(case % 4) as usize];
+        let mut crafted_sel: Option<Value> = None;
+        let class = ["random-bytes", "char-mutated", "part-mutated", "holder-selections", "crafted-structures"][(case % 5) as usize];
         l.count(&format!("class.{class}"));
         let text: String = match class {
             "random-bytes" => (0..r.usize(120)).map(|_| *r.pick(&alphabet)).collect(),
@@ -752,9 +796,21 @@ pub fn miri_main(args: &[String]) {
                 }
                 parts.join("~")
             }
+            "crafted-structures" => {
+                // ill-formed payload / disclosure structures from the C08 builder, unsigned (the
+                // holder does not verify): short and long disclosures, wrong container kinds, ...
+                let force = c08::DEVIATIONS[(case / 5) as usize % c08::DEVIATIONS.len()];
+                let (mut payload, discs, _) = c08::build(&mut r, force, 30);
+                payload["iss"] = json!("i");
+                let jwt = format!("{}.{}.AAAA", b64e(b"{\"alg\":\"ES256\"}"), b64e(payload.to_string().as_bytes()));
+                crafted_sel = Some(if r.chance(50) { gen::select_all(&payload) } else { rand_json(&mut r, 3) });
+                Parts { jwt, disclosures: discs, kb: None }.encode(fmt, 0).unwrap_or_default()
+            }
             _ => tok.clone(),
         };
-        let sel = if class == "holder-selections" {
+        let sel = if let Some(cs) = crafted_sel.take() {
+            cs
+        } else if class == "holder-selections" {
             match r.below(3) {
                 0 => rand_json(&mut r, 3),
                 1 => json!({"a": [true], "o": {"k": [false, {"z": {"q": true}}], "zz": {"y": 1}}, "arr": [[true, true, true], true, [1]], "nope": [true]}),
